@@ -1,28 +1,39 @@
 #!/venv/bin/python
-"""tools/try_mutant.py <patch.diff> <Cxx> [<Cyy> ...] [--tier quick]
-Apply a seeded change to /repo, run the named checks, undo the change.  Evidence files and replays produced
-under the mutant are discarded (evidence/ is restored), so committed evidence always comes from the real tree."""
+"""tools/try_mutant.py <patch.diff> <Cxx> [<Cyy> ...] [--tier=quick] [--inplace]
+Run checks against a seeded change.  By default the change is applied to a SCRATCH WORKTREE of /repo's HEAD under /tmp (removed
+afterwards) and the checks run with VERIF_REPO pointing at it and with evidence/replays redirected to a scratch directory, so
+neither /repo nor the committed evidence is touched.  --inplace applies it to /repo itself (as the brief describes: git apply,
+run, git checkout) and restores evidence/ afterwards."""
 import sys, os, subprocess, shutil, tempfile, json
 V = os.path.dirname(os.path.dirname(os.path.abspath(__file__)))
 args = [a for a in sys.argv[1:] if not a.startswith('--')]
 tier = 'quick'
 for a in sys.argv[1:]:
     if a.startswith('--tier='): tier = a.split('=')[1]
+inplace = '--inplace' in sys.argv
 patch, pids = os.path.abspath(args[0]), args[1:]
-st = subprocess.run(['git', '-C', '/repo', 'status', '--porcelain'], capture_output=True, text=True).stdout.strip()
-if st:
-    print('REFUSING: /repo has uncommitted changes:\n' + st); sys.exit(2)
-r = subprocess.run(['git', '-C', '/repo', 'apply', '--3way', patch], capture_output=True, text=True)
-if r.returncode:
-    r = subprocess.run(['git', '-C', '/repo', 'apply', patch], capture_output=True, text=True)
-if r.returncode:
-    print('PATCH DOES NOT APPLY:', r.stderr[:500]); subprocess.run(['git', '-C', '/repo', 'reset', '-q']); subprocess.run(['git', '-C', '/repo', 'checkout', '--', '.']); sys.exit(3)
-save = tempfile.mkdtemp(prefix='evsave-')
-shutil.copytree(os.path.join(V, 'evidence'), os.path.join(save, 'evidence'))
+
+
+def sh(*cmd):
+    return subprocess.run(list(cmd), capture_output=True, text=True)
+
+
 res = {}
+if inplace:
+    if sh('git', '-C', '/repo', 'status', '--porcelain').stdout.strip():
+        print('REFUSING: /repo has uncommitted changes'); sys.exit(2)
+    repo = '/repo'
+else:
+    repo = tempfile.mkdtemp(prefix='mutwt-', dir='/tmp'); os.rmdir(repo)
+    sh('git', '-C', '/repo', 'worktree', 'add', '-q', '--detach', repo, 'HEAD')
+scratch = tempfile.mkdtemp(prefix='mutev-', dir='/tmp')
 try:
+    r = sh('git', '-C', repo, 'apply', patch)
+    if r.returncode:
+        print('PATCH DOES NOT APPLY:', r.stderr[:400]); sys.exit(3)
+    env = dict(os.environ, VERIF_REPO=repo, VERIF_EVID=os.path.join(scratch, 'evidence'), VERIF_REPLAYS=os.path.join(scratch, 'replays'))
     for pid in pids:
-        p = subprocess.run([os.path.join(V, 'check'), pid, '--tier', tier], capture_output=True, text=True, cwd=V)
+        p = subprocess.run([os.path.join(V, 'check'), pid, '--tier', tier], capture_output=True, text=True, cwd=V, env=env)
         lines = [l for l in p.stdout.splitlines() if l.startswith(('VIOLATION', 'KNOWN', 'MACHINERY', pid))]
         res[pid] = {'rc': p.returncode, 'lines': lines[:4] + lines[-1:]}
         print(pid, 'rc=%d' % p.returncode, 'CAUGHT' if p.returncode == 1 else ('missed' if p.returncode == 0 else 'MACHINERY'))
@@ -31,10 +42,9 @@ try:
         if p.returncode == 2:
             print(p.stdout[-1500:], p.stderr[-1500:])
 finally:
-    subprocess.run(['git', '-C', '/repo', 'reset', '-q'])
-    subprocess.run(['git', '-C', '/repo', 'checkout', '--', '.'])
-    shutil.rmtree(os.path.join(V, 'evidence')); shutil.copytree(os.path.join(save, 'evidence'), os.path.join(V, 'evidence'))
-    shutil.rmtree(save)
-    for pid in pids:
-        shutil.rmtree(os.path.join(V, 'replays', pid), ignore_errors=True)
+    if inplace:
+        sh('git', '-C', '/repo', 'reset', '-q'); sh('git', '-C', '/repo', 'checkout', '--', '.')
+    else:
+        sh('git', '-C', '/repo', 'worktree', 'remove', '--force', repo)
+    shutil.rmtree(scratch, ignore_errors=True)
 print(json.dumps(res))
